@@ -5,7 +5,7 @@
 d="$1"
 wt=/tmp/seedverify-$$
 export GOFLAGS=-mod=mod GOPROXY=off
-git -C /repo worktree add -q --detach $wt HEAD || exit 2
+git -C /repo worktree add -q --detach $wt $(cat /tmp/seed_base 2>/dev/null || echo HEAD) || exit 2
 trap 'git -C /repo worktree remove --force '$wt' 2>/dev/null; rm -rf '$wt EXIT INT TERM
 dest=$(grep -m1 -E "^\s*cp _seed/[a-z]/demo" $d/HOWTO.txt | awk '{print $3}')
 pat=$(grep -m1 -E "go test .*-run" $d/HOWTO.txt | sed -E "s/.*-run '?([A-Za-z0-9_]+)'?.*/\1/")
